@@ -1236,6 +1236,13 @@ func TestCheck(t *testing.T) {
 		"{carrier of the value: file: ref | env: ref | vault: ref (in-memory KV API) | {file.PATH} | {env.NAME} | {$NAME} | {vars.X} over {file.} / {env.}} x {every sequence of 2 (thorough: 3) content states out of A, B, B+newline, empty, blank, missing after a boot with A} x "+
 		"{reload style: Hookaidofile byte-identical | one more comment | unrelated route toggled | byte-identical, reloaded twice (thorough: also every per-step mix of styles)}, probe vector {credential of A, of B, none, of the empty value, the credential that does not depend on the external value, A again, B again} after the boot and after every step: "+
 		"after a reload reported as applied exactly the credentials derivable from the CURRENT content authenticate (none if it is missing/empty), after a reload reported as failed the previous ones stay in force completely; a subset (quick 8 cases, thorough 81) under the controlled scheduler: rotate the content, then real reloadConfig of the unchanged file || request(s). "+
+		"Lifecycle of the inbound request = {forward auth x every answer class of the auth service (every status 100..599, 4 transport errors, hang) x 2 routes | Basic x 5 credentials | HMAC x 5 credentials x 2 configurations} x "+
+		"{the sender goes away: never | before the handler | at the first body read | after half the body (rest never arrives / was buffered) | at the body's EOF | forward: while the auth sub-request is in flight | while the answer's body is drained | after the answer was consumed} x "+
+		"{cause: context cancelled | context deadline expires (virtual time)} x {the sub-request's transport honours the done context | the answer wins | reset}, through the handler with a harness-controlled request context AND (12 answer classes) as raw HTTP/1.1 through the production http.Server over an in-memory connection the sender closes (after the last byte / mid-body / in flight): "+
+		"stored only if the request authenticates (forward: the answer HANDED TO THE CALLER was 2xx), never 2xx otherwise, queue print unchanged; with the sender present exact statuses and completeness. "+
+		"Declared authentication = {25 sites: every option of auth forward (url, timeout, copy_headers entries, body_limit), auth basic (user, password, second user) and auth hmac (secret short / in block / second of two, secret_ref, the secrets{} version's value / valid_from / valid_until, the three header names, tolerance)} x "+
+		"{the value written as: literal quoted / bare | empty, blank, tab literal | literals that are no valid value | {$V}, {$V:}, {$V:default}, {env.V}, {file.PATH} quoted and bare, behind the raw: prefix, {vars.X} over env and file, env: / file: secret references} x {variable / file: valid value | empty | blank | unset / missing} x {fresh boot | boot with the valid value, change the environment or the text, reload}: "+
+		"either refused (a failed reload leaves the previous configuration in force completely) or every request without a valid credential under any reading of the option (none, wrong, derived from the empty value, one HMAC header missing under every candidate name, signed a day ago for the tolerance; forward: auth service 401/403/500/unreachable/hanging) is refused with 401/403/503 and the queue print is unchanged; a plain valid value must be accepted and its credential is a completeness probe. "+
 		"A case is distinct by (family, mutation class, signed-ts point, signer, clock offset, reference verdict, observed status); non-trivial = the un-mutated request is valid at that clock "+
 		"(the mutation decides) or the case is the un-mutated request itself (clock / validity window decides)")
 	r.Assume("the virtual clock of testing/synctest is the clock the application reads (ingress.HMACAuth.Now = time.Now)")
@@ -1246,6 +1253,8 @@ func TestCheck(t *testing.T) {
 	r.Assume("reference is the most permissive reading where the statement leaves a choice (hex letter case, white space around header values, duplicate headers, percent-encoding, sign/leading zeros of the timestamp, tolerance boundary inclusive); completeness is only demanded for the unmodified request at clock = signed ts with the signing secret valid at ts-1..ts+1")
 	r.Assume("reload explorations: scheduling points are the lock / atomic operations of the runtime state, the authenticators, the queue store and the servers; code between them is taken to be thread-local (side condition: the free-running -race pass TestRace runs the same thread bodies); the auth service behind `auth forward` is an in-memory RoundTripper installed as http.DefaultTransport (the production ForwardAuth builds its own http.Client)")
 	r.Assume("external credential values: the value derivable from a content is the content itself or the content without surrounding white space (the documentation leaves the trailing newline open; completeness is demanded only where both coincide); file carriers use a per-case directory, env carriers a per-case variable of this process, vault: a KV v2 endpoint behind an in-memory http.Transport (sequential histories only); a refused reload although the content is a plain value is reported as an infrastructure error")
+	r.Assume("lifecycle: 'the sender went away' is the request context being done (what net/http does when the connection closes; the wire driver checks that mapping through the production http.Server on an in-memory pipe); the auth service 'answered 2xx' iff the in-memory transport handed a 2xx response to its caller; the status written for a sender that is gone is judged only as 'not 2xx'; a truncated body is judged by the bytes delivered")
+	r.Assume("declared authentication: one option per configuration carries the enumerated value, all others are valid literals; a blank secret behind an env:/file: reference (accepted by the unchanged tree as the one-blank key) counts as a value, not as void; placeholders inside option NAMES, in match / pull / queue blocks and two void options at once are not enumerated")
 	r.Assume("after a reload that WIDENS the HMAC tolerance the replay protection may refuse stale timestamps it cannot vouch for; completeness after a reload is therefore demanded only for plain credentials (Basic, API key, HMAC with clock = signed ts)")
 	if os.Getenv("C08_DEBUG") != "" {
 		var ks []string
